@@ -451,7 +451,8 @@ def lockAndApply (cx : Ctx) (S : Store) (e : Edit) : Except StepErr (Store × Ed
       | none =>
         let es : Bool × Bool := effectiveness existing new
         let upd : RefEdit := { e.update with change := .update log (recordExisting existing expected) new }
-        if (es.1 && !cx.directToPacked) || es.2 then
+        -- references that cannot be packed are always written loose (fix 11ff4993b)
+        if (es.1 && !(cx.directToPacked && packable e.name)) || es.2 then
           if lk then .ok (S1, { e with update := upd, lock := true })
           else match acquire S1 e.name with
             | none => .error .lock
@@ -630,12 +631,18 @@ def mergePacked : (fuel : Nat) → List (Name × Oid) → List (Name × Option O
 def mergeAll (ps : List (Name × Oid)) (es : List (Name × Option Oid)) : List (Name × Oid) :=
   mergePacked (ps.length + es.length) ps es
 
+/-- the lines of the packed buffer; no buffer = `std::iter::empty()` -/
+def bufferList (b : Option (List (Name × Oid))) : List (Name × Oid) :=
+  match b with
+  | some l => l
+  | none => []
+
 /-- `packed::Transaction::commit` on the store (the packed lock is released either way);
 `none` = `remove_file` of a packed-refs file that does not exist -/
 def commitPacked (S : Store) (p : PTx) : Option Store :=
   if p.edits.isEmpty then some { S with packedLock := false }
   else
-    let lines := mergeAll (match p.buffer with | some b => b | none => []) (sortEdits p.edits)
+    let lines := mergeAll (bufferList p.buffer) (sortEdits p.edits)
     if lines.isEmpty then
       if S.packed.isSome then some { S with packed := none, packedLock := false }
       else none
@@ -643,49 +650,58 @@ def commitPacked (S : Store) (p : PTx) : Option Store :=
 
 /-! ## commit_inner -/
 
+/-- one iteration of the first loop of `commit_inner`: move an updated ref into place -/
+def commitUpdateStep (deleteLoose : Bool) (S : Store) (e : Edit) : Store × Edit :=
+  match e.update.change with
+  | .update log _ new =>
+    if deleteLoose && !new.isSymbolic && packable e.name then
+      -- "Don't do anything else while keeping the lock" (deleted after packed-refs was written)
+      (S, e)
+    else if log = .andReference then
+      -- `lock.map(Marker::commit)`: rename the lock file onto the reference
+      (if e.lock then { release S e.name with loose := insertKey S.loose e.name new } else S,
+       { e with lock := false })
+    else
+      -- the lock is dropped without being committed
+      (if e.lock then release S e.name else S, { e with lock := false })
+  | .delete _ _ => (S, e)
+
 /-- first loop: move updated refs into place -/
 def commitUpdates (deleteLoose : Bool) : Store → List Edit → Store × List Edit
   | S, [] => (S, [])
   | S, e :: rest =>
-    match e.update.change with
-    | .update log _ new =>
-      if deleteLoose && !new.isSymbolic then
-        let r := commitUpdates deleteLoose S rest
-        (r.1, e :: r.2)
-      else if log = .andReference then
-        -- `lock.map(Marker::commit)`: rename the lock file onto the reference
-        let S1 := if e.lock then { release S e.name with loose := insertKey S.loose e.name new } else S
-        let r := commitUpdates deleteLoose S1 rest
-        (r.1, { e with lock := false } :: r.2)
-      else
-        -- the lock is dropped without being committed
-        let S1 := if e.lock then release S e.name else S
-        let r := commitUpdates deleteLoose S1 rest
-        (r.1, { e with lock := false } :: r.2)
-    | .delete _ _ =>
-      let r := commitUpdates deleteLoose S rest
-      (r.1, e :: r.2)
+    let r := commitUpdateStep deleteLoose S e
+    let rs := commitUpdates deleteLoose r.1 rest
+    (rs.1, r.2 :: rs.2)
+
+/-- `take_lock_and_delete` of the last loop -/
+def takeLockAndDelete (deleteLoose : Bool) (e : Edit) : Bool :=
+  match e.update.change with
+  | .update log _ new => deleteLoose && decide (log = .andReference) && !new.isSymbolic && packable e.name
+  | .delete _ log => decide (log = .andReference)
+
+/-- one iteration of the last loop of `commit_inner`: delete a loose reference -/
+def commitDeleteStep (deleteLoose : Bool) (S : Store) (e : Edit) : Store × Edit :=
+  if takeLockAndDelete deleteLoose e then
+    let S1 : Store := { S with loose := eraseKey S.loose e.name }
+    (if e.lock then release S1 e.name else S1, { e with lock := false })
+  else (S, e)
 
 /-- last loop: delete loose references -/
 def commitDeletes (deleteLoose : Bool) : Store → List Edit → Store × List Edit
   | S, [] => (S, [])
   | S, e :: rest =>
-    let takeLockAndDelete : Bool := match e.update.change with
-      | .update log _ new => deleteLoose && decide (log = .andReference) && !new.isSymbolic
-      | .delete _ log => decide (log = .andReference)
-    if takeLockAndDelete then
-      let S1 : Store := { S with loose := eraseKey S.loose e.name }
-      let S2 := if e.lock then release S1 e.name else S1
-      let r := commitDeletes deleteLoose S2 rest
-      (r.1, { e with lock := false } :: r.2)
-    else
-      let r := commitDeletes deleteLoose S rest
-      (r.1, e :: r.2)
+    let r := commitDeleteStep deleteLoose S e
+    let rs := commitDeletes deleteLoose r.1 rest
+    (rs.1, r.2 :: rs.2)
+
+/-- `leaf_referent_previous_oid` is only used for the reflog entry, which is not modelled -/
+def Edit.core (e : Edit) : Edit := { e with leafPrev := none }
 
 /-- `commit_inner`; locks still owned at the end are dropped with `updates` -/
 def commit (S : Store) (p : Prepared) : Res Unit :=
   let deleteLoose := decide (p.mode = .updatesRemoveLoose)
-  let r1 := commitUpdates deleteLoose S p.edits
+  let r1 := commitUpdates deleteLoose S (p.edits.map Edit.core)
   match p.ptx with
   | some ptx =>
     match commitPacked r1.1 ptx with
@@ -710,20 +726,87 @@ def run := runWith .fixed
 
 /-! ## what the other party and git do to the store (history operations) -/
 
-/-- `git pack-refs --all [--prune|--no-prune]`: every loose non-symbolic ref below `refs/` whose
-object exists is written to packed-refs (replacing an entry of the same name); with `--prune` the
+/-- `git pack-refs --all [--prune|--no-prune]`: every loose non-symbolic ref below `refs/` (but not
+the per-worktree hierarchies) whose object exists is written to packed-refs (replacing an entry of the same name); with `--prune` the
 loose file goes away -/
 def packCandidates (env : Env) (loose : List (Name × Target)) : List (Name × Option Oid) :=
   loose.filterMap fun kv =>
     match kv.2 with
-    | .object o => if startsWith bRefs kv.1 && env.known o then some (kv.1, some o) else none
+    | .object o => if packable kv.1 && env.known o then some (kv.1, some o) else none
     | .symbolic _ => none
 
 def gitPackRefs (env : Env) (prune : Bool) (S : Store) : Store :=
   let cands := packCandidates env S.loose
-  let packed := mergeAll (match S.packed with | some b => b | none => []) (sortEdits cands)
+  let packed := mergeAll (bufferList S.packed) (sortEdits cands)
   { S with
     packed := some packed
     loose := if prune then S.loose.filter fun kv => !(cands.any fun c => c.1 = kv.1) else S.loose }
+
+/-- the name a chain of symbolic refs starting at `n` ends at, the way `split_symref_update`
+follows it: `none` if a name is met twice -/
+def gitLeaf (find : Name → Option Target) : (fuel : Nat) → (seen : List Name) → Name → Option Name
+  | 0, _, _ => none
+  | fuel + 1, seen, n =>
+    match find n with
+    | some (.symbolic next) => if next ∈ (n :: seen) then none else gitLeaf find fuel (n :: seen) next
+    | _ => some n
+
+/-- what git reads through a chain of symbolic refs without RESOLVE_REF_READING (at most 5 reads):
+`some (some o)` an object, `some none` the chain ends at a missing ref (null id), `none` = cycle
+or too deep -/
+def gitResolve (find : Name → Option Target) : (fuel : Nat) → Name → Option (Option Oid)
+  | 0, _ => none
+  | fuel + 1, n =>
+    match find n with
+    | some (.object o) => some (some o)
+    | some (.symbolic next) => gitResolve find fuel next
+    | none => some none
+
+-- "HEAD"
+def bHead : Name := [72, 69, 65, 68]
+
+/-- what `git update-ref` decides to do to which name -/
+inductive GitAction where
+  | erase
+  | write (o : Oid)
+  | nothing
+  deriving DecidableEq, Repr
+
+/-- `git update-ref [-d] [--no-deref] <name> [<new>] [<old>]` (git 2.39, files backend), outside
+directory/file conflicts, as a decision over what `find` shows; `old = some none` is the all-zero
+id; `fuel` bounds the walk along symbolic refs. `none` = git fails. -/
+def gitDecide (find : Name → Option Target) (fuel : Nat) (del noderef : Bool) (name : Name) (new : Option Oid)
+    (old : Option (Option Oid)) : Option (Name × GitAction) :=
+  -- without HEAD the directory is not a repository
+  if (find bHead).isNone then none else
+  let target? := if noderef then some name else gitLeaf find fuel [] name
+  match target? with
+  | none => none
+  | some target =>
+    let current : Option (Option Oid) := match find target with
+      | some (.object o) => some (some o)
+      | some (.symbolic referent) => gitResolve find 5 referent
+      | none => some none
+    let oldOk : Bool := match old, current with
+      | none, _ => true
+      | some none, _ => del || decide (current = some none)
+      | some (some _), none => false
+      | some (some o), some c => decide (c = some o)
+    if !oldOk then none
+    else if del then some (target, .erase)
+    else match new with
+      | some o =>
+        -- the reference already has the desired value: nothing is written
+        if find target = some (.object o) then some (target, .nothing) else some (target, .write o)
+      | none => none
+
+def gitUpdateRef (S : Store) (del noderef : Bool) (name : Name) (new : Option Oid)
+    (old : Option (Option Oid)) : Option Store :=
+  match gitDecide S.find (S.loose.length + 1) del noderef name new old with
+  | none => none
+  | some (target, .erase) =>
+    some { S with loose := eraseKey S.loose target, packed := S.packed.map fun b => eraseKey b target }
+  | some (target, .write o) => some { S with loose := insertKey S.loose target (.object o) }
+  | some (_, .nothing) => some S
 
 end GixModel.C17
